@@ -26,7 +26,7 @@ ASSUMPTIONS = [
     "file time stamps come from a logical clock (os.utime(path, None) and the scripted resource); wall-clock ties are not modelled",
     "the stdlib ThreadPool is replaced by ControlledPool, which reproduces imap(chunksize=5) semantics: consecutive chunks, one thread per chunk, in-order results",
     "under the GIL only the labelled scheduling points (thread start, before each task, 4 points inside each download) are interleaved",
-    "absolute cache paths only (named caches always use absolute paths)",
+    "cache directories on /dev/shm given as absolute paths (depth 3+) and as paths relative to the working directory (depth 2)",
 ]
 REQUIRED_CATEGORIES = {
     "quick": ["eviction", "hit", "miss", "enlarge", "missing_uri", "reopen", "lru_pairs_checked", "preempted_schedule"],
@@ -274,7 +274,8 @@ def enabled_ops(tr, tier, depth_here):
 
 
 def build(hist, limit, parallel, api):
-    w = lab.World(size_bytes=limit, parallel=parallel, api=api)
+    relative = api == "relative"
+    w = lab.World(size_bytes=limit, parallel=parallel, api="object" if relative else api, relative=relative)
     tr = Tracker(w.cache.config.max_size_bytes)
     for op in hist:
         apply_op(w, tr, op, lambda *a: None, check_model=True)
@@ -501,6 +502,7 @@ def units(tier):
                        "first": s, "nshards": nshards, "cost": 10})
     for limit in (2500, 3500):
         us.append({"name": f"bfs-module-api:limit{limit}", "kind": "bfs", "limit": limit, "depth": 2, "api": "module", "cost": 3})
+        us.append({"name": f"bfs-relative-path:limit{limit}", "kind": "bfs", "limit": limit, "depth": 2, "api": "relative", "cost": 3})
     if tier == "quick":
         reqs = [(6, None, 1), (6, 0, 1), (6, 5, 1), (7, 3, 1)]
     else:
